@@ -82,15 +82,33 @@ def snap_axes_to_integers(ds):
     return True
 
 
+def min_master_gap(ds):
+    """Smallest distance between two distinct source positions on one axis, as a fraction of the
+    axis' design range."""
+    gap = 1.0
+    for a in ds["axes"]:
+        lo, _d, hi = V.design_bounds(a)
+        vals = sorted({V.full_location(ds["axes"], s["location"])[a["name"]] for s in ds["sources"]})
+        for x, y in zip(vals, vals[1:]):
+            gap = min(gap, float(y - x) / float(hi - lo))
+    return gap
+
+
 def gen(rng, idx, tier):
     r = rng.random()
     stratum = "default"
     kern = rng.choice(["aligned", "aligned", "ragged"])
-    ds = masters.family(rng, n_glyphs=rng.choice([4, 5, 6]), kerning=kern, anchors=True,
-                        missing_glyph=False, extra_glyph=False, rules=0, comp_2x2=False,
-                        kinds=rng.choice([["line", "curve"], ["line", "qcurve"], ["line"]]),
-                        coord_mode=rng.choice(["int", "half"]), kern_values="int",
-                        sparse=rng.random() < 0.25)
+    for _attempt in range(8):
+        ds = masters.family(rng, n_glyphs=rng.choice([4, 5, 6]), kerning=kern, anchors=True,
+                            missing_glyph=False, extra_glyph=False, rules=0, comp_2x2=False,
+                            kinds=rng.choice([["line", "curve"], ["line", "qcurve"], ["line"]]),
+                            coord_mode=rng.choice(["int", "half"]), kern_values="int",
+                            sparse=rng.random() < 0.25)
+        # axis coordinates are stored as F2Dot14 (fvar / avar / regions): two masters closer
+        # than a few percent of the axis turn that quantisation (2^-14) into whole font units
+        # at the neighbouring master - a limit of the format, not the statement's "one unit"
+        if min_master_gap(ds) >= 0.04:
+            break
     if rng.random() < 0.7:
         snap_axes_to_integers(ds)
     func = rng.choice(["compileVariableTTF", "compileVariableCFF2"])
